@@ -545,9 +545,21 @@ impl Writer {
     /// Copy data from files that are included for merging. Once finish, copied files are deleted.
     #[tracing::instrument(level = "debug", skip(self))]
     fn merge(&mut self) -> Result<(), Error> {
-        let path = self.ctx.conf.path.as_path();
-        let min_merge_fileid = self.active_fileid + 1;
-        let mut merge_fileid = min_merge_fileid;
+        let mut merge_fileid = self.active_fileid + 1;
+        let result = self.merge_files(&mut merge_fileid);
+        if result.is_err() && self.active_fileid <= merge_fileid {
+            // Files with IDs up to `merge_fileid` may have been created. Entries that are written
+            // from now on must go to a file above them to take precedence over the merged copies
+            // when the storage is rebuilt, and the IDs must not be used again.
+            self.new_active_datafile(merge_fileid + 1)?;
+        }
+        result
+    }
+
+    /// Merge into files starting at `merge_fileid`, which is updated to the last ID that was used.
+    fn merge_files(&mut self, merge_fileid: &mut u64) -> Result<(), Error> {
+        let path = self.ctx.conf.path.clone();
+        let path = path.as_path();
         debug!(merge_fileid, "new merge file");
 
         // Get the set of file ids to be merged
@@ -561,9 +573,9 @@ impl Writer {
             let mut readers = self.readers.borrow_mut();
             let mut merge_pos = 0;
             let mut merge_datafile_writer =
-                BufWriter::new(log::create(utils::datafile_name(path, merge_fileid))?);
+                BufWriter::new(log::create(utils::datafile_name(path, *merge_fileid))?);
             let mut merge_hintfile_writer =
-                LogWriter::new(log::create(utils::hintfile_name(path, merge_fileid))?)?;
+                LogWriter::new(log::create(utils::hintfile_name(path, *merge_fileid))?)?;
 
             // Only go through entries whose values are located within the merged files.
             #[cfg(feature = "verif")]
@@ -592,12 +604,12 @@ impl Writer {
                 };
 
                 // update keydir so it points to the merge data file
-                keydir_entry.fileid = merge_fileid;
+                keydir_entry.fileid = *merge_fileid;
                 keydir_entry.len = nbytes;
                 keydir_entry.pos = merge_pos;
 
                 // the merge file must only contain live keys
-                let mut stats = self.ctx.stats.entry(merge_fileid).or_default();
+                let mut stats = self.ctx.stats.entry(*merge_fileid).or_default();
                 stats.add_live();
 
                 // write the KeyDir entry to the hint file for fast recovery
@@ -611,12 +623,12 @@ impl Writer {
                 // switch to new merge data file if we exceed the max file size
                 merge_pos += nbytes;
                 if merge_pos > self.ctx.conf.max_file_size {
-                    merge_fileid += 1;
+                    *merge_fileid += 1;
                     merge_pos = 0;
                     merge_datafile_writer =
-                        BufWriter::new(log::create(utils::datafile_name(path, merge_fileid))?);
+                        BufWriter::new(log::create(utils::datafile_name(path, *merge_fileid))?);
                     merge_hintfile_writer =
-                        LogWriter::new(log::create(utils::hintfile_name(path, merge_fileid))?)?;
+                        LogWriter::new(log::create(utils::hintfile_name(path, *merge_fileid))?)?;
                     debug!(merge_fileid, "new merge file");
                 }
                 #[cfg(feature = "verif")]
@@ -626,9 +638,12 @@ impl Writer {
             drop(_v);
         }
 
+        // Switch to a new active file above the merge files before touching the merged files,
+        // the active file could be one of them
+        self.new_active_datafile(*merge_fileid + 1)?;
+
         // Remove stale files from system and storage statistics
         for id in &fileids_to_merge {
-            self.ctx.stats.remove(id);
             if let Err(e) = fs::remove_file(utils::hintfile_name(path, *id)) {
                 if e.kind() != io::ErrorKind::NotFound {
                     return Err(e.into());
@@ -639,9 +654,8 @@ impl Writer {
                     return Err(e.into());
                 }
             }
+            self.ctx.stats.remove(id);
         }
-
-        self.new_active_datafile(merge_fileid + 1)?;
         Ok(())
     }
 
